@@ -82,20 +82,6 @@ theorem probe_congr (fs fs' : FS) (r : Reader) (he : EagerHandles r = true)
 
 /-! ### a freshly opened reader -/
 
-/-- the reader a successful `SegmentReader(...)` call produces -/
-def freshSeg (eager : Name → Bool) (fs : FS) (schema generation : Nat) (seg : SegRef) : SegReader :=
-  ⟨seg, some generation, schema,
-    (seg.files.filter eager).filterMap fun f => (fs.dir f).map fun i => (f, i)⟩
-
-/-- `_reader`'s choice of reader class -/
-def assemble (schema generation : Nat) : List SegReader → Reader
-  | [] => .empty schema
-  | [r] => .single r
-  | rs => .multi rs (some generation)
-
-def freshReader (eager : Name → Bool) (fs : FS) (t : Toc) : Reader :=
-  assemble t.schema t.gen (t.segs.map (freshSeg eager fs t.schema t.gen))
-
 theorem openFiles_bound (fs : FS) (files : List Name) (h : ∀ f ∈ files, (fs.dir f).isSome) :
     openFiles fs files = .ok (files.filterMap fun f => (fs.dir f).map fun i => (f, i)) := by
   induction files with
